@@ -8,7 +8,7 @@ Two layers:
   about.  Go maps are association lists whose order nothing may depend on; `deps` is the raw, unsorted
   `dependencies` slice in insertion order.
 * `View` is what `ruleHash` obtains through the accessors: one value per *attribute* (`SAttr`, `LAttr`, …).
-  `view` transcribes the accessors (`DeclaredDependencies` sorts labels, `AllSources` appends the named groups
+  `view` transcribes the accessors (`DeclaredDependencies` sorts labels, `AllData` appends the named groups
   in key order, `DeclaredOutputNames` sorts, `GetCommand` picks the per-config command, …); whether each of
   them sorts is a regenerated fact.
 * `ruleSer` interprets the *write schema* regenerated from the body of `ruleHash` on every run
@@ -146,12 +146,12 @@ inductive SAttr where
   | label | command | fileContent | testCommand | testArgsPlaceholder
   deriving DecidableEq, Repr
 inductive LAttr where
-  | deps | visibility | hashes | sources | outs | licences | optionalOuts | labels | secrets | requires
+  | deps | visibility | hashes | srcs | outs | licences | optionalOuts | labels | secrets | requires
   | outputDirs | data | testOutputs
   | hashCheckers   -- `state.Config.Build.HashCheckers`
   deriving DecidableEq, Repr
 inductive GAttr where
-  | namedOuts | provides
+  | namedOuts | provides | namedSrcs
   deriving DecidableEq, Repr
 inductive MAttr where
   | entryPoints | env
@@ -189,7 +189,8 @@ structure Facts where
   providesSorted : Bool          -- the key sort inside `ruleHash`
   depsSorted : Bool              -- `DeclaredDependencies`
   outputNamesSorted : Bool       -- `DeclaredOutputNames`
-  buildInputsSorted : Bool       -- `allBuildInputs` (AllSources / AllData)
+  buildInputsSorted : Bool       -- `allBuildInputs` (AllData)
+  namedSrcsSorted : Bool         -- the key sort over `target.NamedSources` inside `ruleHash`
   deriving DecidableEq, Repr
 
 /-- What `ruleHash` sees of a target through the accessors. -/
@@ -231,7 +232,7 @@ def view (F : Facts) (c : Ctx) (t : Target) : View where
     | .deps => ((if F.depsSorted then isort Label.lt t.deps else t.deps).map Label.str)
     | .visibility => t.visibility.map Label.str
     | .hashes => t.hashes
-    | .sources => allInputs F t.srcs t.namedSrcs
+    | .srcs => t.srcs
     | .outs => t.outs
     | .licences => t.licences
     | .optionalOuts => t.optionalOuts
@@ -245,6 +246,7 @@ def view (F : Facts) (c : Ctx) (t : Target) : View where
   groups
     | .namedOuts => keysOrder F.outputNamesSorted t.namedOuts
     | .provides => keysOrder F.providesSorted (t.provides.map fun kv => (kv.1, kv.2.map Label.str))
+    | .namedSrcs => keysOrder F.namedSrcsSorted t.namedSrcs
   map
     | .entryPoints => keysOrder F.hashMapSorted t.entryPoints
     | .env => keysOrder F.hashMapSorted t.env
